@@ -53,8 +53,6 @@ class Cell:
 
     def __init__(self, cls, num):
         self.cls = cls
-        if isinstance(num, z3.ExprRef) and num.sort().kind() == z3.Z3_INT_SORT:
-            num = z3.ToReal(num)
         self.num = num
 
     def __repr__(self):
@@ -141,21 +139,24 @@ class Interner:
             return vs[i][1]
         lo = vs[i - 1][1] if i > 0 else None
         hi = vs[i][1] if i < len(ks) else None
+        GAP = 2 ** 40
         if lo is None and hi is None:
-            f = Fraction(0)
+            f = 0
         elif lo is None:
-            f = hi - 1
+            f = hi - GAP
         elif hi is None:
-            f = lo + 1
+            f = lo + GAP
         else:
-            f = (lo + hi) / 2
+            f = (lo + hi) // 2
+            if f == lo:
+                raise Unsupported('interner: id space between %r and its neighbour exhausted' % (obj,))
         ks.insert(i, k)
         vs.insert(i, (obj, f))
         self.byid[cls][f] = obj
         return f
 
     def lookup(self, cls, f):
-        return self.byid[cls][Fraction(f)]
+        return self.byid[cls][int(f)]
 
     def ids(self, cls):
         return [f for _, f in self.vals[cls]]
@@ -169,6 +170,7 @@ def frac_of(v):
 
 
 INT64_MIN, INT64_MAX = -2 ** 63, 2 ** 63 - 1
+INF = 2 ** 200  # stands for float('inf') in REAL cells
 
 
 class Row:
@@ -303,7 +305,7 @@ class Connection:
         if v is None:
             return CNULL
         if isinstance(v, B):
-            return Cell(INT, z3.If(v.z, z3.RealVal(1), z3.RealVal(0)))
+            return Cell(INT, z3.If(v.z, z3.IntVal(1), z3.IntVal(0)))
         if isinstance(v, bool):
             return Cell(INT, int(v))
         if isinstance(v, int):
@@ -317,13 +319,18 @@ class Connection:
         if isinstance(v, R):
             return Cell(REAL, sx._fold(v.z))
         if isinstance(v, Fraction):
-            return Cell(REAL, v)
+            if v.denominator != 1:
+                raise Inconclusive('non-integer real %s bound to the relational model (integer-time encoding)' % v)
+            return Cell(REAL, int(v))
         if isinstance(v, float):
             if v != v:
                 return CNULL  # sqlite3 binds NaN as NULL
             if v in (float('inf'), float('-inf')):
-                raise Inconclusive('infinite float bound to the relational model')
-            return Cell(REAL, Fraction(v))
+                # +-infinity: a sentinel beyond every symbolic time (all symbolic reals are assumed |x| <= 2**62)
+                return Cell(REAL, INF if v > 0 else -INF)
+            if v != int(v):
+                raise Inconclusive('non-integer float %r bound to the relational model (integer-time encoding)' % v)
+            return Cell(REAL, int(v))
         if isinstance(v, str):
             return Cell(TEXT, db.intern.intern(TEXT, v))
         if isinstance(v, (bytes, bytearray, memoryview)):
@@ -352,11 +359,9 @@ class Connection:
         if k == REAL:
             n = simp(cell.num)
             if not isz(n):
-                f = Fraction(n)
-                fl = float(f)
-                if Fraction(fl) == f:
-                    return fl
-                return R(zR(f))
+                if abs(n) >= INF:
+                    return float('inf') if n > 0 else float('-inf')
+                return float(n)
             return R(n)
         n = simp(cell.num)
         if isz(n):
@@ -398,10 +403,8 @@ class Connection:
                 raise OperationalError('no such column: %s' % e[2])
             return row.c[e[2]]
         if k == 'token':
-            z = zpath.TOKENS[e[1]]
-            if zpath.is_real_sort(z):
-                return Cell(REAL, z)
-            return Cell(INT, z)
+            z, isfloat = zpath.TOKENS[e[1]]
+            return Cell(REAL if isfloat else INT, sx._fold(z))
         if k == 'lit':
             return self.bind(e[1])
         if k == 'dq':
